@@ -259,3 +259,52 @@ def revertToDPOSCheck (guarded : Bool) (nPrograms : Nat) (code : Bytes) : R Bool
   if nPrograms = 0 then .panic else crcArbitersMN guarded code
 
 end ElaVerif.CoinbaseTotal
+
+namespace ElaVerif.CoinbaseTotal
+open ElaVerif.Script
+
+/-! ### round 7: isNextArbitratorsSame / isNextArbitratorsSameV1 (NextTurnDPOSInfo context check)
+
+Keys are small numbers (0 = the empty key `[]byte{}`).  `guarded = true`: the length tests of the fix. -/
+
+structure NextArb where
+  id : Nat
+  isCRC : Bool        -- Arbitrators.IsNextCRCArbitrator(key)
+  elected : Bool      -- Arbitrators.IsMemberElectedNextCRCArbitrator(key)
+  deriving DecidableEq, Repr
+
+def keyAt (l : List Nat) (i : Nat) : R Nat :=
+  match l[i]? with
+  | some x => .val x
+  | none => .panic
+
+def nextSameLoop (guarded : Bool) (cr dpos : List Nat) : List NextArb → Nat → Nat → R Bool
+  | [], _, _ => .val true
+  | v :: rest, ci, di =>
+    if v.isCRC then
+      if guarded ∧ cr.length ≤ ci then .val false else do
+        let k ← keyAt cr ci
+        if k = v.id ∨ (k = 0 ∧ !v.elected) then nextSameLoop guarded cr dpos rest (ci + 1) di else .val false
+    else
+      if guarded ∧ dpos.length ≤ di then .val false else do
+        let k ← keyAt dpos di
+        if k = v.id then nextSameLoop guarded cr dpos rest ci (di + 1) else .val false
+
+/-- `isNextArbitratorsSame` -/
+def nextSame (guarded : Bool) (cr dpos : List Nat) (next : List NextArb) : R Bool :=
+  if cr.length + dpos.length ≠ next.length then .val false else nextSameLoop guarded cr dpos next 0 0
+
+def v1Loop (keys : List Nat) : List (Nat × Bool) → Nat → R Bool
+  | [], _ => .val true
+  | (id, elected) :: rest, i => do
+    let k ← keyAt keys i
+    if k = id ∨ (k = 0 ∧ !elected) then v1Loop keys rest (i + 1) else .val false
+
+/-- `isNextArbitratorsSameV1`: `next` / `nextCRC` as (key, elected) pairs -/
+def nextSameV1 (guarded : Bool) (cr dpos : List Nat) (next nextCRC : List (Nat × Bool)) : R Bool :=
+  if dpos.length ≠ next.length then .val false else do
+    let a ← v1Loop dpos next 0
+    if !a then .val false else
+    if guarded ∧ cr.length < nextCRC.length then .val false else v1Loop cr nextCRC 0
+
+end ElaVerif.CoinbaseTotal
